@@ -1,12 +1,15 @@
 // SPDX-License-Identifier: BSL-1.1 OR Apache-2.0
-use std::time::{SystemTime, UNIX_EPOCH};
+use std::{
+    sync::Arc,
+    time::{SystemTime, UNIX_EPOCH},
+};
 
 use tensor_store::{ScalarValue, TensorData, TensorStore, TensorValue};
 
 use crate::{
     chunker::{Chunk, Chunker, StreamingHasher},
     error::{BlobError, Result},
-    gc::increment_chunk_refs,
+    gc::{increment_chunk_refs, ChunkLock},
     metadata::PutOptions,
 };
 
@@ -31,6 +34,7 @@ pub struct BlobWriter {
     total_size: usize,
     hasher: StreamingHasher,
     buffer: Vec<u8>,
+    chunk_lock: Arc<ChunkLock>,
 }
 
 impl BlobWriter {
@@ -61,7 +65,15 @@ impl BlobWriter {
             total_size: 0,
             hasher: StreamingHasher::new(),
             buffer: Vec::new(),
+            chunk_lock: Arc::default(),
         }
+    }
+
+    /// Share the chunk lock of the blob store this writer writes into.
+    #[must_use]
+    pub(crate) fn with_chunk_lock(mut self, chunk_lock: Arc<ChunkLock>) -> Self {
+        self.chunk_lock = chunk_lock;
+        self
     }
 
     /// Write data to the artifact. Data is chunked and stored incrementally.
@@ -96,11 +108,18 @@ impl BlobWriter {
     fn store_chunk(&mut self, chunk: Chunk) -> Result<()> {
         let chunk_key = chunk.key();
 
-        // Check if chunk already exists (deduplication)
+        // "exists, then increment or create" is one critical section: a GC
+        // cycle or another writer must not act on the chunk in between.
+        let guard = self.chunk_lock.lock();
+
+        // Check if chunk already exists (deduplication); a chunk that is gone
+        // by the time it is incremented is stored again.
+        let mut deduped = false;
         if self.store.exists(&chunk_key) {
             // Increment reference count
-            increment_chunk_refs(&self.store, &chunk_key)?;
-        } else {
+            deduped = increment_chunk_refs(&self.store, &chunk_key)?;
+        }
+        if !deduped {
             // Store new chunk
             let mut tensor = TensorData::new();
             tensor.set(
@@ -122,6 +141,7 @@ impl BlobWriter {
 
             self.store.put(&chunk_key, tensor)?;
         }
+        drop(guard);
 
         self.chunks.push(chunk_key);
         Ok(())
